@@ -7,14 +7,17 @@
 (* the steps of the behaviours it writes.                                     *)
 EXTENDS EventWriter
 
-CONSTANT Burst  \* TRUE: everything is published and buffered before the writer moves
+CONSTANT Burst  \* "none" | "pop": everything is published and buffered before the writer moves |
+                \* "close": ... and the batching loop has finished (Close called) before the writer moves
 
 P1 == wpc = "wait" /\ woken
 P2 == ~P1 /\ bpc = "idle" /\ chan # <<>>
 P3 == ~P1 /\ ~P2 /\ cpc = "waiting" /\ bpc = "exited" /\ wpc = "exited"
 Low == ~P1 /\ ~P2 /\ ~P3
-Filling == Burst /\ ((\E p \in Producers : prod[p] < NEvents) \/ chan # <<>> \/ bpc = "recv")
-LowW == Low /\ ~Filling   \* writer / close steps
+Filling == Burst # "none" /\ ((\E p \in Producers : prod[p] < NEvents) \/ chan # <<>> \/ bpc = "recv")
+Closing == Burst = "close" /\ ~Filling /\ bpc # "exited"   \* the writer waits until the batching loop is gone
+LowW == Low /\ ~Filling   \* close / batching-loop steps
+LowWr == LowW /\ ~Closing  \* writer steps
 
 G_WriterWake == P1 /\ WriterWake
 G_BatchRecv == P2 /\ BatchRecv
@@ -25,11 +28,11 @@ G_BatchSeesClosed == LowW /\ BatchSeesClosed
 G_BatchSignal == LowW /\ BatchSignal
 G_BatchRelease == LowW /\ BatchRelease
 G_BatchExit == LowW /\ BatchExit
-G_WriterSelectDone == LowW /\ WriterSelectDone
-G_WriterSelectDefault == LowW /\ WriterSelectDefault
-G_WriterPopEnter == LowW /\ WriterPopEnter
-G_BrokerAck == LowW /\ BrokerAck
-G_WriterExit == LowW /\ WriterExit
+G_WriterSelectDone == LowWr /\ WriterSelectDone
+G_WriterSelectDefault == LowWr /\ WriterSelectDefault
+G_WriterPopEnter == LowWr /\ WriterPopEnter
+G_BrokerAck == LowWr /\ BrokerAck
+G_WriterExit == LowWr /\ WriterExit
 G_CloseBegin == LowW /\ CloseBegin
 
 GenNext ==
